@@ -443,7 +443,7 @@ func visitInstr(fr *frame, instr ssa.Instruction) continuation {
 	case *ssa.FieldAddr:
 		p := fr.get(instr.X).(*value)
 		if p == nil {
-			panic(targetPanic{iface{i.runtimeErrorString, "runtime error: invalid memory address or nil pointer dereference"}})
+			panic(targetPanic{iface{i.runtimeErrorString, "runtime error: invalid memory address or nil pointer dereference (field of nil pointer in " + stackOf(fr, 4) + ")"}})
 		}
 		st, ok := (*p).(structure)
 		if !ok {
@@ -478,7 +478,7 @@ func visitInstr(fr *frame, instr ssa.Instruction) continuation {
 			fr.set(instr, &x[i.indexOf(idx, len(x), instr.Index.Type())])
 		case *value:
 			if x == nil {
-				panic(targetPanic{iface{i.runtimeErrorString, "runtime error: invalid memory address or nil pointer dereference"}})
+				panic(targetPanic{iface{i.runtimeErrorString, "runtime error: invalid memory address or nil pointer dereference (index of nil array pointer in " + stackOf(fr, 4) + ")"}})
 			}
 			a := (*x).(array)
 			fr.set(instr, &a[i.indexOf(idx, len(a), instr.Index.Type())])
